@@ -50,6 +50,7 @@ var ErrInjected = errors.New("injected fault")
 // read deadline (os.ErrDeadlineExceeded), which is the capture layer's "no packet yet".
 type Source struct {
 	Timed    bool      // a Read with nothing to deliver sleeps (virtual clock) until the read deadline
+	Flood    bool      // every queued packet arrives a symbolic time after the Read began; the Read honours its deadline
 	deadline time.Time
 	Next    []byte
 	Queue   [][]byte
@@ -89,6 +90,29 @@ func (s *Source) Read(buf []byte) (int, error) {
 		return 0, nil
 	}
 	var p []byte
+	if s.Flood {
+		// contract of a capture handle with a read deadline: a Read returns when a packet arrives or at the
+		// deadline, whichever is first; past the deadline it fails at once
+		left := time.Until(s.deadline)
+		if left <= 0 {
+			return 0, os.ErrDeadlineExceeded
+		}
+		if len(s.Queue) == 0 {
+			V.Sleep(left)
+			return 0, os.ErrDeadlineExceeded
+		}
+		// arrival of the next packet: at once, halfway to the deadline, or not before the deadline
+		c := V.U8("arrival")
+		V.Assume(c <= 2)
+		gap := []time.Duration{0, left / 2, left}[V.Concretize(int(c))]
+		if gap >= left {
+			V.Sleep(left)
+			return 0, os.ErrDeadlineExceeded
+		}
+		V.Sleep(gap)
+		p, s.Queue = s.Queue[0], s.Queue[1:]
+		return copy(buf, p), nil
+	}
 	if s.Next != nil {
 		p, s.Next = s.Next, nil
 	} else if len(s.Queue) > 0 {
@@ -234,7 +258,8 @@ func ICMPError4(pr []byte, icmpType, icmpCode uint8, quoteLen, extra, optWords i
 	return p
 }
 
-// ICMPError6 builds an ICMPv6 error (type/code) quoting quoteLen bytes of probe pr; hop limit of the quote rewritten.
+// ICMPError6 builds an ICMPv6 error (type/code) quoting quoteLen bytes of probe pr; hop limit and traffic class of
+// the quote rewritten.
 func ICMPError6(pr []byte, icmpType, icmpCode uint8, quoteLen int) []byte {
 	resp := V.Bytes("responder", 16)
 	free := V.Bytes("outerfree", 5) // traffic class/flow (4 bytes, version forced), hop limit
@@ -247,6 +272,10 @@ func ICMPError6(pr []byte, icmpType, icmpCode uint8, quoteLen int) []byte {
 	p = append(p, icmpType, icmpCode, icmpFree[0], icmpFree[1], icmpFree[2], icmpFree[3], icmpFree[4], icmpFree[5])
 	q := append([]byte(nil), pr[:quoteLen]...)
 	q[7] = V.U8("quotedhop")
+	// the IPv6 form of a rewritten TOS: the quoted traffic class (DSCP/ECN re-marking on the way to the router)
+	tc := V.U8("quotedtc")
+	q[0] = 0x60 | tc>>4
+	q[1] = q[1]&0x0f | tc<<4
 	p = append(p, q...)
 	return p
 }
